@@ -216,7 +216,8 @@ def pipeline_dataset(chk, r, S, work, d, reqs, expect):
     ds = S.make_dataset(r, dsdir, n_samples=1 if lonely else 3, n_loci=r.choice([4, 5]),
                         ploidies=r.choice([(2, 4), (2,), (4, 2, 2)]), max_snvs=4, features={"nodepth"},
                         depth=(1, 3) if hard else (4, 14), n_contigs=r.choice([1, 2]), contig_len=r.choice([600, 400]),
-                        iupac=(0.08 if d % 3 == 0 else 0.0))     # a reference with IUPAC ambiguity codes between the SNVs
+                        iupac=(0.08 if d % 3 == 0 else 0.0),     # a reference with IUPAC ambiguity codes between the SNVs
+                        flank_snvs=True)                           # SNV records on the bases next to every target
     chk.count(f"pipeline:reference-with-ambiguity-codes={d % 3 == 0}")
     chk.count(f"pipeline:contigs={len(ds.contigs)}")
     extra = ["--haplotype-posterior-threshold", "1.0" if lonely else r.choice(["1.0", "1.0", "0.95"])] if hard else []
@@ -253,6 +254,20 @@ def pipeline_dataset(chk, r, S, work, d, reqs, expect):
         chk.violation("assemble did not print one record per target with POS = start + 1 and REF = the reference sequence of the window",
                       {**key0, "got": got, "expected": want}, "C12/pipeline/assemble-records")
         return
+    # SNVPOS of every record = the positions of the --variants records that lie inside the target window (1-based offsets): a
+    # record on the base before or after the window is not part of the locus
+    snv_recs = [(x.split("\t")[0], int(x.split("\t")[1]) - 1, x.split("\t")[4]) for x in open(ds.snv_vcf[:-3]).read().split("\n")
+                if x and not x.startswith("#")]
+    for a, (c, s_, e, n) in zip(arecs, targets):
+        want_pos = sorted({p_ - s_ + 1 for c_, p_, alt_ in snv_recs if c_ == c and s_ <= p_ < e and alt_ != "."})
+        v_ = a["INFO"].get("SNVPOS", ".")
+        got_pos = [] if v_ in (".", None) else [int(x) for x in (v_ if isinstance(v_, (list, tuple)) else str(v_).split(","))]
+        chk.count("assemble:SNVPOS-compared-with-the-variants-file")
+        if any(c_ == c and p_ in (s_ - 1, e) for c_, p_, _ in snv_recs):
+            chk.count("assemble:target-with-a-variant-record-on-an-adjacent-base")
+        if got_pos != want_pos:
+            chk.violation("assemble: SNVPOS is not the set of --variants records inside the target window",
+                          {**key0, "target": [c, s_, e, n], "SNVPOS": got_pos, "expected": want_pos}, "C12/pipeline/assemble-snvpos")
     for a in arecs:
         chk.count("assemble:records")
         if not a["ALT"]:
